@@ -87,7 +87,7 @@ func PlantDeps(t *rapid.T, cfg *Config, n int, allowOptional bool) []string {
 	}
 	var dependents []int
 	for i := range cfg.Regs {
-		if cfg.Regs[i].Form != FormInstance {
+		if cfg.Regs[i].Form != FormInstance && cfg.Regs[i].Kind == KindMakeFunc {
 			dependents = append(dependents, i)
 		}
 	}
@@ -245,7 +245,7 @@ func PlantCycle(t *rapid.T, cfg *Config) bool {
 	if p.u != p.v && rapid.Bool().Draw(t, "sharedParent") {
 		// a third registration depending directly on two members of the cycle
 		for k := range cfg.Regs {
-			if k != p.u && k != p.v && cfg.Regs[k].Form != FormInstance {
+			if k != p.u && k != p.v && cfg.Regs[k].Form != FormInstance && cfg.Regs[k].Kind == KindMakeFunc {
 				d1, ok1 := depOn(t, &cfg.Regs[p.u])
 				d2, ok2 := depOn(t, &cfg.Regs[p.v])
 				if ok1 && ok2 {
@@ -270,7 +270,7 @@ func PlantCaptive(t *rapid.T, cfg *Config) bool {
 	var cands []pair
 	for i := range cfg.Regs {
 		a := &cfg.Regs[i]
-		if a.Life == Scoped || a.Form == FormInstance {
+		if a.Life == Scoped || a.Form == FormInstance || a.Kind != KindMakeFunc {
 			continue
 		}
 		for j := range cfg.Regs {
@@ -338,5 +338,39 @@ func PlantSameCtor(t *rapid.T, cfg *Config) bool {
 	}
 	clone.HasCtorOf, clone.CtorOf = true, src.ID
 	cfg.Regs = append(cfg.Regs, clone)
+	return true
+}
+
+// PlantCaptiveFlip creates a captive dependency the other way round: the
+// provider of something a long-lived service already depends on (through
+// whatever kind of edge the generator gave it, embedded fields included)
+// becomes scoped. Returns false when there is no such pair.
+func PlantCaptiveFlip(t *rapid.T, cfg *Config) bool {
+	m, err := NewModel(cfg)
+	if err != nil {
+		return false
+	}
+	var cands []int
+	seen := map[int]bool{}
+	for i := range cfg.Regs {
+		a := &cfg.Regs[i]
+		if a.Life == Scoped || a.Form == FormInstance {
+			continue
+		}
+		for _, v := range m.RegEdges(a) {
+			if b := m.Regs[v]; b.Life != Scoped && b.Form != FormInstance && !seen[v] {
+				seen[v] = true
+				for j := range cfg.Regs {
+					if cfg.Regs[j].ID == v {
+						cands = append(cands, j)
+					}
+				}
+			}
+		}
+	}
+	if len(cands) == 0 {
+		return false
+	}
+	cfg.Regs[rapid.SampledFrom(cands).Draw(t, "flipToScoped")].Life = Scoped
 	return true
 }
